@@ -67,6 +67,29 @@ HasDefaultIntOverI64(t) ==
     [] t.j = "arr" -> \E i \in 1..Len(t.items) : HasDefaultIntOverI64(t.items[i])
     [] OTHER -> FALSE
 
+(* a field that carries a default while its type mentions (by a reference string) a record that is still being
+   defined at that point -- the crate type-checks defaults by resolving them immediately, when that name is not
+   registered yet *)
+LastDotPos(u) == LET SS == {i \in 1..Len(u) : u[i] = 46} IN IF SS = {} THEN 0 ELSE CHOOSE i \in SS : \A j \in SS : j <= i
+ShortU(u) == SubSeq(u, LastDotPos(u) + 1, Len(u))
+RECURSIVE MentionsOpen(_, _), DefaultOnOpenType(_, _)
+MentionsOpen(t, open) ==
+  CASE t.j = "str" -> ShortU(t.u) \in open
+    [] t.j = "arr" -> \E i \in 1..Len(t.items) : MentionsOpen(t.items[i], open)
+    [] t.j = "obj" -> \E i \in 1..Len(t.kv) : t.kv[i][1] \in {"type", "items", "values"} /\ MentionsOpen(t.kv[i][2], open)
+    [] OTHER -> FALSE
+DefaultOnOpenType(t, open) ==
+  CASE t.j = "arr" -> \E i \in 1..Len(t.items) : DefaultOnOpenType(t.items[i], open)
+    [] t.j = "obj" ->
+         LET isRec == \E i \in 1..Len(t.kv) : t.kv[i][1] = "type" /\ t.kv[i][2].j = "str" /\ t.kv[i][2].s = "record"
+             nm == {ShortU(t.kv[i][2].u) : i \in {x \in 1..Len(t.kv) : t.kv[x][1] = "name" /\ t.kv[x][2].j = "str"}}
+             open2 == IF isRec THEN open \cup nm ELSE open
+             hasDef == \E i \in 1..Len(t.kv) : t.kv[i][1] = "default"
+             ty == {t.kv[i][2] : i \in {x \in 1..Len(t.kv) : t.kv[x][1] = "type"}}
+         IN \/ (~isRec /\ hasDef /\ \E y \in ty : MentionsOpen(y, open))
+            \/ \E i \in 1..Len(t.kv) : t.kv[i][1] \in {"fields", "type", "items", "values"} /\ DefaultOnOpenType(t.kv[i][2], open2)
+    [] OTHER -> FALSE
+
 (* finding ids that explain the failed clause c of event e exactly *)
 Explains(e, tree, c, p) ==
   {id \in KnownIds :
@@ -81,6 +104,8 @@ Explains(e, tree, c, p) ==
      \/ id = "C11-non-object-field-skipped" /\ c = "C11:accepted-field-not-object"
      \/ id = "C11-integer-default-over-i64-rejected"
           /\ c = "C11:rejected-wellformed:json-number-could-not" /\ HasDefaultIntOverI64(tree)
+     \/ id = "C11-default-on-type-under-definition-rejected"
+          /\ c = "C11:rejected-wellformed:default-s-value-type" /\ DefaultOnOpenType(tree, {})
   }
 
 NoPost == [out |-> "", kind |-> "", op |-> ""]
